@@ -376,7 +376,9 @@ def r4_driver_dispatch(P, rep, ctx):
     handled = set()
     dv = gs.params[1]
     for mem in members:
-        e = gf.tests(f"{dv} == MetadorDriverEnum.{mem}", f"{dv} is MetadorDriverEnum.{mem}", f"MetadorDriverEnum.{mem} == {dv}")
+        rc = gs.params[0]
+        subj = [dv, f"{dv} or get_driver_type({rc})", f"get_driver_type({rc}) if {dv} is None else {dv}", f"{dv} if {dv} is not None else get_driver_type({rc})"]
+        e = gf.tests(*[p_ for sj in subj for p_ in (f"({sj}) == MetadorDriverEnum.{mem}", f"({sj}) is MetadorDriverEnum.{mem}", f"MetadorDriverEnum.{mem} == ({sj})")])
         vals = [i for i, v in gf.returns() if v is not None and not (isinstance(v, ast.Constant) and v.value is None)]
         if e and all(gf.hit_before(g.exit, nodes=vals, src_edge=x) for x in e):
             handled.add(mem)
